@@ -53,4 +53,7 @@ def DataFrame_sort_key (truth : Term → Bool) (dir : Int) : Out :=
 /-- the decorators of dataiter/data_frame.py: DataFrame.sort.sort_key, outermost first -/
 def DataFrame_sort_key_decorators : List String := []
 
+/-- the signature of dataiter/data_frame.py: DataFrame.sort.sort_key: parameters in order, with the source text of their defaults -/
+def DataFrame_sort_key_signature : List String := ["colname", "dir"]
+
 end DI.Gen
